@@ -76,7 +76,7 @@ def kani_harnesses():
             if not os.path.exists(p):
                 continue
             txt = open(p).read()
-            names = re.findall(r'\bfn\s+((?:c\d\d_)+\w+)\s*\(\s*\)', txt) + re.findall(r'(?:extract_harness|index_range|rank_harness|vhost_memory_layout)!\(\s*((?:c\d\d_)+\w+)', txt)
+            names = re.findall(r'\bfn\s+((?:c\d\d_)+\w+)\s*\(\s*\)', txt) + re.findall(r'(?:extract_harness|index_range|rank_harness|vhost_memory_layout|two_ring_harness)!\(\s*((?:c\d\d_)+\w+)', txt)
             for name in names:
                 props = ["C" + x for x in re.findall(r'c(\d\d)_', re.match(r'((?:c\d\d_)+)', name).group(1))]
                 props += KANI_ALSO.get(name, [])
